@@ -53,6 +53,11 @@ func addSha(r Res, a Args) {
 	}
 }
 
+func addShaOf(extra map[string]any, b []byte) {
+	h := sha256.Sum256(b)
+	extra["sha"] = ints(h[:])
+}
+
 func errStr(e error) string {
 	if e == nil {
 		return ""
